@@ -3323,12 +3323,16 @@ fn convert_group_entry<'a>(
         is_cut = true;
       }
       Rule::member_key => {
+        // the key's own extent, not the whole entry's: the key and the entry's
+        // type are siblings and must not overlap
+        #[cfg(feature = "ast-span")]
+        let key_span = pest_span_to_ast_span(&inner.as_span(), input);
         member_key = Some(convert_member_key_simple(
           inner,
           input,
           is_cut,
           #[cfg(feature = "ast-span")]
-          span,
+          key_span,
         )?);
       }
       Rule::type_expr => {
